@@ -10,7 +10,7 @@ from common import qlit, natlit, zlit, blit, lst, tup, coq_bad_indices, parallel
 
 PROP = "C04"
 PROPERTY_FILE = "Properties/C04.v"
-GEN_DEPS = ["GenC01Trunc", "GenC04Triplet", "GenC04SetRep", "GenTieDrift"]
+GEN_DEPS = ["GenC01Trunc", "GenC04Triplet", "GenC04SetRep", "GenTieDrift", "GenTieChain"]   # GenTieChain: for the TIE spot check of compute_mu_h (generated middle) only
 RULE = ("cases: MarkovChainProcess(StepModel declared in ZERO/CENTER/ONEONE/TILDE x finite/'infinite' variation flag, dyadic a and sigma), "
         "grids as in C01 (random dyadic, fixed, credit; 0..3 refinements; support covering / exceeding / inside the grid); compared "
         "exactly: compute_mu_h, process_drift() after initialisation (through the GENERATED dispatch), and equivalent_diffusion_coefficient**2 "
@@ -24,7 +24,8 @@ RULE = ("cases: MarkovChainProcess(StepModel declared in ZERO/CENTER/ONEONE/TILD
         "matrix handed to sqrtm - sigma_k^2) against the 1-d chain of the same margin, on 2-d density tables with / without mass in the strip outside "
         "the central cube (exact; also the Coq cube model tab2_vadj against the observed matrix, 1e-5 + 1e-4 rel: library nquad) and on CGMY y = 1.3 "
         "margins under the Clayton, independent and complete-dependence copulas (threshold: 2 % + 1e-6 below the 1-d amount; the deficit is "
-        "cross-checked against an independent quadrature of LevyCopulaModel.mass over the strip).  non-trivial = distinct chain with >= 2 states on a side")
+        "cross-checked against an independent quadrature of LevyCopulaModel.mass over the strip).  non-trivial = distinct chain with >= 2 states on a side.  "
+        "TIE spot check (wave 8): the generated TIE definitions are spot-checked against the running Python on every run -- groups mu_h (GenTieDrift.compute_mu_h over GenTieChain.middle against the real compute_mu_h), q_vector, intensity_1d, dispatch_c1d, dispatch_nd2 of harness/tie_selftest.py (12 cases each, kind tie_spot) on real CTMCGrid / Coordinate objects, dyadic axes of 1..5 points per side, exact")
 MODELLED = ["compute_mu_h loop: hand model Model/Drift.v PROVED equal to the py2coq-generated loop Gen/GenTieDrift.v (C04_gen_compute_mu_h_is_model); "
             "vol_adjustment, MarkovChainProcess.__init__/initialisation arithmetic (hand model, exact correspondence)",
             "LevyTriplet.set_representation + the _drift_mapping dict of LevyTriplet.__init__ + the LevyRepresentation enum values: py2coq-generated "
@@ -44,7 +45,8 @@ MODELLED = ["compute_mu_h loop: hand model Model/Drift.v PROVED equal to the py2
             "the correspondence drives those calls too (wave 8; Example C04_error_value_not_absorbing)",
             "np.sqrt in vol_adjustment / equivalent_diffusion_coefficient: the model works with the squares",
             "first/second moment integrals of the measure: abstract additive m1, non-negative m2 over Q (concrete closed forms: C09)",
-            "MarkovChainLevyCopula.initialisation (margins of a copula chain): one drift per margin with the margin's own triplet, flag and axis"]
+            "MarkovChainLevyCopula.initialisation (margins of a copula chain): one drift per margin with the margin's own triplet, flag and axis",
+            "TIE spot check (wave 8): the generated TIE definitions are spot-checked against the running Python on every run (correspond -> tie_selftest.selftest_spotchecks on the GenTie modules of GEN_DEPS; GenTieChain is in GEN_DEPS for this purpose only -- the spot check of compute_mu_h evaluates the generated loop over the generated CTMCGrid.middle, and the rates the drift sums are create_q_vector's -- no theorem of Properties/C04.v is about it, so its .vo is built by correspond itself); a disagreement is a broken obligation 'correspondence TIE <group>'"]
 ASSUMPTIONS = ["guard of every theorem that quantifies over representations: fv = true or rep <> ZERO (and target <> ZERO), the conversions raise "
                "ValueError otherwise: C04_zero_infinite_variation_is_error, correspondence groups 'raise', 'setrep1', 'setrep2'",
                "m1 a b = int_a^b x nu(dx) is additive and respects ==; m2 a b = int x^2 nu is non-negative (C09 discharges them for the "
@@ -160,6 +162,31 @@ def few_bits(x, bits=44):
     return abs(fr.numerator).bit_length() <= bits
 
 
+def _tie_spot(res):
+    """cross-cutting TIE layer (DESIGN 2.2a): the GENERATED GenTie* definitions of GEN_DEPS (just regenerated and compiled by the driver)
+    against the RUNNING Python functions on real objects, dyadic inputs, exact, one coqc (harness/tie_selftest.py: mu_h, q_vector, intensity_1d, dispatch_c1d, dispatch_nd2)"""
+    try:
+        import tie_selftest
+        import common
+        ok, log = common.regen_and_make(["Gen/GenTieChain.vo"])      # regenerated by the driver (GEN_DEPS) but no dependency of Properties/C04.vo: compile it
+        if not ok:
+            res.broke("correspondence TIE spot check", "Gen/GenTieChain.vo does not build: " + log[-1500:])
+            return
+        out = tie_selftest.selftest_spotchecks([m for m in GEN_DEPS if m.startswith("GenTie")], res.seed, name=PROP)
+    except Exception as e:  # noqa: BLE001 -- the implementation raised on a spot-check input, or the case file does not compile
+        res.broke("correspondence TIE spot check", f"could not run: {type(e).__name__}: {str(e)[-1500:]}")
+        return
+    if not out:
+        res.broke("correspondence TIE spot check", "no spot-check group of harness/tie_selftest.py is covered by the GenTie modules of GEN_DEPS")
+    for g, (n, bad) in sorted(out.items()):
+        for i in range(n):
+            res.count(("tie_spot", g, res.seed, i), kind="tie_spot")
+            res.bump("tie_spot", g)
+        if bad:
+            res.broke(f"correspondence TIE {g}", f"generated definition(s) of group {g} disagree with the running Python function on "
+                                                 f"{len(bad)} of {n} spot-check cases: indices {bad[:10]} (build/TIE/{PROP}.v)")
+
+
 def correspond(res):
     from rpylib.distribution.samplingfactory import create_q_vector
     from rpylib.process.markovchain.markovchain import compute_mu_h
@@ -167,6 +194,7 @@ def correspond(res):
     from stepmeasure import StepModel, random_step_measure, random_dyadic_axis, make_grid, step_spec, build_model
     from props.C13 import build_fixed, build_credit
     rng = random.Random(res.seed)
+    _tie_spot(res)
     thorough = res.tier == "thorough"
 
     def viol(what, **kw):
